@@ -5,6 +5,7 @@ import (
 	"math/rand/v2"
 	"strings"
 
+	"github.com/TheManticoreProject/Manticore/crypto/uuid"
 	"github.com/TheManticoreProject/Manticore/windows/guid"
 
 	"verif/mon"
@@ -70,6 +71,54 @@ func textMutations() {
 	}
 }
 
+// uuidTextMutations: the same for the UUID text parsers (generic and versioned). A text they accept
+// is, apart from letter case and hyphens, the text the value formats to.
+func uuidTextMutations() {
+	rng := r.Rand("uuid-textmut")
+	norm := func(s string) string { return strings.ReplaceAll(strings.ToLower(s), "-", "") }
+	for k := 0; k < r.Pick(1500, 30000); k++ {
+		b := randValue(rng)
+		for _, ver := range []byte{0, 1, 2, 8} {
+			bv := b
+			name := "uuid.UUID"
+			if ver != 0 {
+				bv = withVersion(b, ver)
+				name = verName(ver)
+			}
+			base := recase(canonUUID(bv), rng.IntN(3))
+			for _, m := range mutateText(base, rng) {
+				if m.how != "high-bit-set" && m.how != "char-replaced" && m.how != "char-doubled" && m.how != "char-deleted" {
+					continue
+				}
+				var out string
+				var err error
+				p, _, _ := mon.Guard(func() {
+					if ver == 0 {
+						var u uuid.UUID
+						if err = u.FromString(m.s); err == nil {
+							out = u.String()
+						}
+					} else {
+						u := newVer(ver)
+						if err = u.FromString(m.s); err == nil {
+							out = u.String()
+						}
+					}
+				})
+				ev(1)
+				if p || err != nil {
+					r.Count("mutated_uuid_texts_refused", 1)
+					continue
+				}
+				r.Count("mutated_uuid_texts_accepted", 1)
+				if norm(out) != norm(m.s) {
+					r.Violation(name+".FromString:accepts-malformed:"+m.how, fmt.Sprintf("FromString(%q) accepted the text; the value formats back as %q", m.s, out), map[string]any{"text": m.s, "mutation": m.how})
+				}
+			}
+		}
+	}
+}
+
 type mutated struct{ s, how string }
 
 func mutateText(s string, rng *rand.Rand) []mutated {
@@ -118,6 +167,13 @@ func mutateText(s string, rng *rand.Rand) []mutated {
 		t := append([]byte{}, b...)
 		t[pos] = c
 		add(string(t), "char-replaced")
+	}
+	// one character with its high bit set (an octet beyond ASCII that is a digit or separator
+	// once that bit is dropped), at the chosen place, in the first and in the last character
+	for _, q := range []int{pos, 0, len(b) - 1, len(b) / 2} {
+		t := append([]byte{}, b...)
+		t[q] |= 0x80
+		add(string(t), "high-bit-set")
 	}
 	// one character deleted / inserted / doubled
 	add(string(append(append([]byte{}, b[:pos]...), b[pos+1:]...)), "char-deleted")
